@@ -16,10 +16,12 @@ import (
 	"os"
 	"os/exec"
 	"path/filepath"
+	"regexp"
 	"runtime/debug"
 	"sort"
 	"strings"
 	"sync"
+	"syscall"
 	"testing"
 
 	"github.com/bufbuild/protocompile/experimental/report"
@@ -399,7 +401,37 @@ type deepCase struct {
 	Shape  int    `json:"shape"`
 	Depth  int    `json:"depth"`
 	Closed bool   `json:"closed"`
+	// Literal, when set, is the input itself (resource-attack inputs) and
+	// Shape/Depth/Closed are unused.
+	Literal string `json:"literal,omitempty"`
 }
+
+func (c deepCase) text() string {
+	if c.Literal != "" {
+		return c.Literal
+	}
+	return deepShapes[c.Shape].build(c.Depth, c.Closed)
+}
+
+func (c deepCase) describe() map[string]any {
+	if c.Literal != "" {
+		return map[string]any{"literal": c.Literal}
+	}
+	return map[string]any{"shape": deepShapes[c.Shape].Name, "depth": c.Depth, "closed": c.Closed}
+}
+
+// isoMemLimit is the address-space limit of the isolated grandchild. It turns
+// "a 12-byte input makes the lexer compute 10^999999999" into a deterministic
+// event (fatal error: out of memory) instead of minutes of CPU; no input of the
+// isolated list legitimately needs a fraction of it.
+const isoMemLimit = 3 << 30
+
+// reHugeExponent matches numeric literals whose exponent has 7 or more digits.
+// The lexer materialises such numbers as big integers (10^exponent), which
+// takes minutes and gigabytes from 10^8 upward. Inputs containing one are not
+// run in-process by the random families (class "deferred:huge-exponent"); the
+// behaviour is decided on the dedicated literal inputs of the isolated list.
+var reHugeExponent = regexp.MustCompile(`[0-9.][eEpP][+-]?[0-9]{7,}`)
 
 type isoViolation struct {
 	Kind    string         `json:"kind"`
@@ -415,6 +447,11 @@ func c28IsolatedMain(listFile string) {
 	// The Go default (1 GiB on 64-bit) made explicit: exhausting it on an input
 	// of a few hundred kilobytes is what a user of the library would see too.
 	debug.SetMaxStack(1 << 30)
+	lim := syscall.Rlimit{Cur: isoMemLimit, Max: isoMemLimit}
+	if err := syscall.Setrlimit(syscall.RLIMIT_AS, &lim); err != nil {
+		fmt.Println("C28ISO ERROR setrlimit:", err)
+		os.Exit(3)
+	}
 	b, err := os.ReadFile(listFile)
 	if err != nil {
 		fmt.Println("C28ISO ERROR", err)
@@ -429,12 +466,14 @@ func c28IsolatedMain(listFile string) {
 	for i, c := range cases {
 		fmt.Fprintf(out, "C28ISO BEGIN %d\n", i)
 		out.Flush()
-		text := deepShapes[c.Shape].build(c.Depth, c.Closed)
+		text := c.text()
 		o := c28Verdicts(c28Path, text, func(kind, sig string, w map[string]any) {
 			if w == nil {
 				w = map[string]any{}
 			}
-			w["text"] = map[string]any{"shape": deepShapes[c.Shape].Name, "depth": c.Depth, "closed": c.Closed, "prefix": clip(text, 300)}
+			desc := c.describe()
+			desc["prefix"] = clip(text, 300)
+			w["text"] = desc
 			vb, _ := json.Marshal(isoViolation{kind, sig, w})
 			fmt.Fprintf(out, "C28ISO VIOL %s\n", vb)
 		})
@@ -469,6 +508,10 @@ func c28Deep(r *vlib.Run) {
 				all = append(all, deepCase{ID: fmt.Sprintf("c28/deep/%s/%d/%v", s.Name, d, closed), Shape: si, Depth: d, Closed: closed})
 			}
 		}
+	}
+	// Resource attacks: tiny inputs with astronomically large exponents.
+	for i, lit := range []string{"1e999999999", "1e-999999999", "x = 1e2147483647;", "1.5E+999999999", "0x1p999999999", "1e99999999", ".1e999999999", "1e9999999"} {
+		all = append(all, deepCase{ID: fmt.Sprintf("c28/huge-exponent/%d", i), Literal: lit})
 	}
 	var mine []deepCase
 	for i, c := range all {
@@ -505,7 +548,7 @@ func c28Deep(r *vlib.Run) {
 				fmt.Sscanf(l, "C28ISO END %d", &ended)
 				c := mine[ended]
 				r.Eval(c.ID)
-				r.Class("family:nesting-deep")
+				r.Class("family:isolated")
 			case strings.HasPrefix(l, "C28ISO VIOL "):
 				var v isoViolation
 				if json.Unmarshal([]byte(strings.TrimPrefix(l, "C28ISO VIOL ")), &v) == nil && begun >= 0 && begun < len(mine) {
@@ -533,9 +576,13 @@ func c28Deep(r *vlib.Run) {
 		c := mine[begun]
 		es := stderr.String()
 		r.Eval(c.ID)
-		r.Class("family:nesting-deep")
-		r.Violation("parse.fatal", fatalLine(es)+" at "+vlib.PanicSite(es)+" [deep shape "+deepShapes[c.Shape].Name+"]", c.ID,
-			map[string]any{"shape": deepShapes[c.Shape], "depth": c.Depth, "closed": c.Closed, "input_len": len(deepShapes[c.Shape].build(c.Depth, c.Closed)), "stderr_head": clip(es, 3000)})
+		r.Class("family:isolated")
+		class := "huge exponent literal"
+		if c.Literal == "" {
+			class = "deep shape " + deepShapes[c.Shape].Name
+		}
+		r.Violation("parse.fatal", fatalLine(es)+" at "+vlib.PanicSite(es)+" ["+class+"]", c.ID,
+			map[string]any{"input": c.describe(), "input_len": len(c.text()), "address_space_limit": isoMemLimit, "stderr_head": clip(es, 3000)})
 		mine = mine[begun+1:]
 	}
 }
@@ -580,6 +627,10 @@ func TestC28(t *testing.T) {
 		mu.Unlock()
 		for _, c := range ch.Gen() {
 			if !r.Want(c.ID) {
+				continue
+			}
+			if reHugeExponent.MatchString(c.Text) {
+				r.Class("deferred:huge-exponent")
 				continue
 			}
 			o := c28Verdicts(c28Path, c.Text, func(kind, sig string, w map[string]any) {
